@@ -13,7 +13,8 @@ import CruxVerif.Spec.Codec
            `()` `true` `false` `u8:255` `i64:-5` `f32:<bits>` `c:<code point>` `s:<hex utf8>` `b:<hex>` `none` `(some v)`
            `[v…]` (seq; map entries are `(k v)`) `(v…)` (tuple, array, every struct) `(#Variant v…)`
   out  : `wrote <hex> <value|unreadable>` | `ser-error` | `not-in-schema` | `accepted <value> <hex> <0|1>` | `rejected`
-         (implementation only: `unbuildable <why>` — Deserialize refuses what Serialize printed) -/
+         (implementation only: `unbuildable <why>` — Deserialize refuses what Serialize printed; `unstable <value>` —
+         the value rebuilt through Deserialize prints differently) -/
 namespace Driver.Codec
 open M.Schema M.Bincode S.Codec
 
@@ -281,6 +282,7 @@ def parseObs (c : Case) (line : String) : Option (Sum String Obs) :=
       | none => .inl (lower c.root ++ "-accepted-value-not-in-schema")
   | some [.atom "rejected"] => some (.inr .rejected)
   | some (.atom "unbuildable" :: _) => some (.inl (lower c.root ++ "-printed-value-not-buildable"))
+  | some (.atom "unstable" :: _) => some (.inl (lower c.root ++ "-printed-value-changes-when-rebuilt"))
   | _ => none
 
 def model (line : String) : String :=
